@@ -1,6 +1,11 @@
 // Package base32 implements utilities for encoding and decoding text using I2P's alphabet
 package base32
 
+import (
+	b32 "encoding/base32"
+	"strings"
+)
+
 // EncodeToString encodes binary data to a base32 string using I2P's encoding alphabet.
 // It converts arbitrary byte data into a human-readable base32 string representation
 // using the I2P-specific lowercase alphabet defined in RFC 3548.
@@ -18,7 +23,39 @@ func EncodeToString(data []byte) string {
 func DecodeString(data string) ([]byte, error) {
 	// Parse I2P-specific base32 string with error handling
 	// Validates input characters against I2P alphabet before decoding
+	if err := rejectDataAfterPadding(data); err != nil {
+		return nil, err
+	}
 	return I2PEncoding.DecodeString(data)
+}
+
+// rejectDataAfterPadding reports an error when a padded base32 string carries anything
+// after its final padded quantum: characters other than padding or line breaks after the
+// first '=', or more '=' than complete the 8-character quantum. encoding/base32 stops
+// decoding at the first padded quantum and silently ignores whatever follows it, so strings
+// such as "me======zzzz" or "me==========" would otherwise decode successfully.
+func rejectDataAfterPadding(data string) error {
+	i := strings.IndexByte(data, '=')
+	if i < 0 {
+		return nil
+	}
+	length := 0
+	for j := 0; j < len(data); j++ {
+		switch data[j] {
+		case '\r', '\n':
+			continue
+		case '=':
+		default:
+			if j > i {
+				return b32.CorruptInputError(j)
+			}
+		}
+		length++
+	}
+	if length%8 != 0 {
+		return b32.CorruptInputError(len(data))
+	}
+	return nil
 }
 
 // EncodeToStringNoPadding encodes binary data to an unpadded base32 string using I2P's encoding alphabet.
@@ -62,6 +99,9 @@ func DecodeStringSafe(data string) ([]byte, error) {
 	}
 	if len(data) > MAX_DECODE_SIZE {
 		return nil, ErrInputTooLarge
+	}
+	if err := rejectDataAfterPadding(data); err != nil {
+		return nil, err
 	}
 	return I2PEncoding.DecodeString(data)
 }
